@@ -184,6 +184,8 @@ def model_steps(case, ci):
 
 
 def run_impl(case, outcome):
+    if case.get("sparse"):
+        return run_sparse(case, outcome)
     obs, n = run_case(case)
     qs = []
     outcome.count("conns:%d" % len(case["conns"]))
@@ -316,3 +318,47 @@ def gen_cases(rng, tier):
         if "R" not in sched:
             sched.insert(0, "R")
         yield {"op": "send", "conns": conns, "schedule": sched}
+
+
+def gen_constants(rng, tier):
+    """bursts as long as the integer constants the transport code names (read sizes, limits): one connection stalled for the
+    whole burst, the others must get everything, whole and in order, and the stalled one too once it drains"""
+    import comp_buf
+    files = ["indi/transport/server/tcp.py", "indi/transport/server/tty.py", "indi/transport/client/tcp.py", "indi/routing/router.py"]
+    for c in comp_buf.int_constants(files, floor=8):
+        if c > 3000:
+            continue
+        for conns in (["tcp", "tcp", "tcp"], ["tcp", "tty"]):
+            # connection 0 never completes during the burst; the others complete as they go
+            sched = []
+            for k in range(c + 5):
+                sched.append("R")
+                if k % 7 == 0:
+                    sched += ["C%d" % i for i in range(1, len(conns)) for _ in range(2)]
+            yield {"op": "send", "conns": conns, "schedule": sched, "sparse": True}
+
+
+def run_sparse(case, outcome):
+    """long bursts: no model comparison step by step; the oracle judges the final outputs after the flush (everything routed
+    has left every connection, whole and in order) and the outputs at the end of the burst (prefixes of the routed sequence,
+    complete on the connections that were never stalled)"""
+    obs, n = run_case(case)
+    routed = list(range(1, n + 1))
+    qs = []
+    outcome.count("long-burst", n)
+    outcome.nontrivial.add((tuple(case["conns"]), n))
+    last = [o for o in obs if o is not None][-1]
+    final = case.get("_final")
+    for ci, kind in enumerate(case["conns"]):
+        ids = last[ci]
+        out = "0" if ids is None else "%d %s" % (len(ids), " ".join(str(x) for x in ids))
+        qs.append(Query("spec send %d %s 1 %s False" % (len(routed), " ".join(str(x) for x in routed), out), "True" if ids is not None else "garbled-output", "oracle",
+                        "a burst of %d messages with connection 0 stalled: connection %d's output is not a prefix of what was routed" % (n, ci)))
+        if final is not None:
+            fin = final[ci]
+            qs.append(Query("spec send %d %s 1 %s True" % (len(routed), " ".join(str(x) for x in routed),
+                                                           "%d %s" % (len(fin), " ".join(str(x) for x in fin)) if fin is not None else "0"),
+                            "True" if fin is not None else "garbled-output", "oracle",
+                            "a burst of %d messages with connection 0 stalled: after everything drained connection %d has sent %d of them" % (n, ci, len(fin or []))))
+    case.pop("_final", None)
+    return qs
